@@ -11,6 +11,21 @@
    of real recordings (lines mapped on random subsets of the 16 digital and the analog lines), read back,
    and fronts / rises / falls (1-D, 2-D both axes, dtypes, analog=True) compared with the exported events.
 4. binding self-tests: corrupted records must be rejected, perturbed expectations must be flagged.
+
+Input / history dimensions generated on purpose (audit after round e; each judged by the clauses above):
+  words handed to split_sync as int16 / uint16 / wider integers / float32 (what Reader.read returns) / column / strided,
+  reversed and read-only views; recordings of every probe kind and stream (3A, 3B1, 3B2, NP2.1, NP2.4 four shanks, NPultra;
+  ap and lf), flat and compressed (.cbin, several chunks), opened from the binary, a str, the metadata file, with sort=False,
+  open=False + context manager; nidq layouts (MN / MA / XA counts, 0..8 analog lines, other full-scale ranges, samples *below*
+  the floor); every reading API (read_sync, read_sync_digital, Reader.read positional / with a channel selection / default
+  arguments, read_samples, spikeglx.read) interleaved on one Reader object; selectors (steps, negative steps, negative and
+  past-the-end bounds, unsorted / duplicated index arrays, lists); threshold positional, floor_percentile=0; fronts / rises /
+  falls on every axis spelling (0 / -1 / -2 / 1), single-line 2-D arrays, non-contiguous / Fortran / read-only arguments used
+  twice in both call orders, idle levels other than 0 (DC baseline), float amplitudes and steps, analog=True on 1-D / either
+  axis / float32 / integers.
+Left out because the unchanged code does not handle them (reported by the audit, not repaired): an empty sample
+selection and an integer sample on nidq files with analog lines, nidq files with 0 or 2 digital words, index arrays on
+.cbin (mtscomp), unsigned / boolean arrays and lists handed to falls.
 """
 import copy
 import json
@@ -36,42 +51,103 @@ DIFFS = {"1.2": {0: [0, 0, 3, 41, 7864], 1: [7865, 7866, 12000]},
 THRS = {"1.2": THR12, "1.25": THR125, "0.625": THR0625, "2.5": THR25}
 THR_ORDER = ["1.2", "0.625", "2.5", "1.25"]
 NIDQ = dict(mn=2, ma=1, xa=2, dw=1)
+# other channel layouts of a nidq stream (one digital word each): up to 8 analog sync lines, none, no MN / MA in front
+# (the MN / MA gains of the metadata do not concern the analog sync lines)
+LAYOUTS = [NIDQ, dict(mn=0, ma=0, xa=8, dw=1, ma_gain=4), dict(mn=0, ma=0, xa=1, dw=1, mn_gain=100, ma_gain=2),
+           dict(mn=3, ma=2, xa=4, dw=1, ma_gain=8)]
+LAYOUTS_READ = LAYOUTS + [dict(mn=1, ma=0, xa=0, dw=1), dict(mn=0, ma=2, xa=3, dw=1, ma_gain=5, mn_gain=50)]
+# forms of an imec recording: (kind, stream, saved data channels, shanks, samples per .cbin chunk or 0 for a flat file)
+IMEC_FORMS = [dict(kind="3B2", stream="ap", nch=8, nshank=1, cbin=0), dict(kind="3B2", stream="ap", nch=8, nshank=1, cbin=1000),
+              dict(kind="NP2.4", stream="ap", nch=100, nshank=4, cbin=0), dict(kind="3B2", stream="lf", nch=8, nshank=1, cbin=0)]
+WORD_FORMS = ["uint16", "int32", "int64u", "float32", "column", "strided", "reversed", "readonly"]
+
+
+def thr_for(thr_name, range_max=5):
+    """<<rn, rd, tn, td, maxint>> of SyncBits.tla for a threshold name and a full-scale range (5, 10 or 2.5 V)"""
+    t = list(THRS[thr_name])
+    t[0], t[1] = {5: (5, 1), 10: (10, 1), 2.5: (5, 2)}[range_max]
+    return t
+
+
+def classes(thr):
+    """raw - floor values by level: far below, just below, exactly at (when representable), just above the threshold"""
+    for name, t in THRS.items():
+        if list(thr) == t:
+            return DIFFS[name]
+    rn, rd, tn, td, mx = thr
+    b = -(-(tn * mx * rd) // (td * rn))          # smallest count with count * range / maxint >= threshold
+    return {0: [0, 0, 3, 41, b - 1], 1: [b, b, b + 1, b + 4000]}
+
+
+def default_thr(thr):
+    return list(thr[2:4]) == [6, 5]
 
 
 # ------------------------------------------------------------------------------------------------
 # real recordings
 # ------------------------------------------------------------------------------------------------
-def make_imec(folder, stem, words, rng, nch=8, kind="3B2"):
-    """3B imec AP recording whose sync channel carries `words` (uint16); nch data channels"""
+def to_cbin(binfile, nc, fs, chunk):
+    """the same recording as .cbin / .ch next to its .meta, `chunk` samples per chunk; the flat file is removed"""
+    import mtscomp
+    mtscomp.tqdm = lambda it=None, **k: it          # progress bars off (cosmetic)
+    out = binfile.with_suffix(".cbin")
+    mtscomp.compress(binfile, out=out, outmeta=binfile.with_suffix(".ch"), sample_rate=fs, n_channels=nc, dtype=np.int16,
+                     chunk_duration=chunk / fs, n_threads=1, check_after_compress=False)
+    binfile.unlink()
+    return out
+
+
+def make_imec(folder, stem, words, rng, nch=8, kind="3B2", stream="ap", nshank=1, cbin=0):
+    """imec recording (any probe kind, ap or lf stream, flat or compressed) whose sync channel carries `words` (uint16)"""
     ns = len(words)
-    sites = metagen.dense_sites(kind)[:nch]
-    text, info = metagen.make_meta(kind, sites, ns=ns, nsync=1)
+    sites = metagen.dense_sites(kind, nshank=nshank)[:nch]
+    text, info = metagen.make_meta(kind, sites, ns=ns, nsync=1, stream=stream)
     data = metagen.random_int16(rng, ns, nch + 1)
     data[:, -1] = np.asarray(words, dtype=np.uint16).view(np.int16)
-    return metagen.write_recording(folder, stem, text, data, suffix=".ap")
+    f = metagen.write_recording(folder, stem, text, data, suffix="." + stream)
+    return to_cbin(f, nch + 1, info["fs"], cbin) if cbin else f
 
 
-def make_nidq(folder, stem, words, araw, rng):
+def make_nidq(folder, stem, words, araw, rng, lay=NIDQ, range_max=5, cbin=0):
     """nidq recording: MN, MA, XA (analog sync, raw int16 `araw` [ns, xa]), DW (digital word)"""
     ns = len(words)
-    text, info = metagen.make_nidq_meta(ns=ns, range_max=5, **NIDQ)
+    text, info = metagen.make_nidq_meta(ns=ns, range_max=range_max, **lay)
     data = metagen.random_int16(rng, ns, info["nc"])
-    a0 = NIDQ["mn"] + NIDQ["ma"]
-    data[:, a0:a0 + NIDQ["xa"]] = araw
+    a0 = lay["mn"] + lay["ma"]
+    data[:, a0:a0 + lay["xa"]] = araw
     data[:, -1] = np.asarray(words, dtype=np.uint16).view(np.int16)
-    return metagen.write_recording(folder, stem, text, data, suffix=".nidq")
+    f = metagen.write_recording(folder, stem, text, data, suffix=".nidq")
+    return to_cbin(f, info["nc"], info["fs"], cbin) if cbin else f
 
 
-def analog_from_levels(levels, thr_name, rng, prefix):
-    """levels [n, xa] in {0,1} -> (diffs [prefix+n, xa], floors [xa]); `prefix` samples exactly at the floor
-    are put in front so that the 10th percentile of every column is its floor"""
+def analog_from_levels(levels, thr, rng, prefix):
+    """levels [n, xa] in {0,1} -> (diffs [prefix+n, xa], floors [xa]); `thr` = threshold name or tuple. `prefix` samples are
+    put in front so that the 10th percentile of every column is exactly its floor: most of them sit at the floor, about 3 %
+    of all samples lie *below* it (the floor of a real trace is not its minimum)"""
     n, xa = levels.shape
+    cl = classes(THRS[thr] if isinstance(thr, str) else thr)
     d = np.zeros((prefix + n, xa), dtype=np.int64)
     for c in range(xa):
         for t in range(n):
-            d[prefix + t, c] = rng.choice(DIFFS[thr_name][int(levels[t, c])])
+            d[prefix + t, c] = rng.choice(cl[int(levels[t, c])])
+    k = min(int(0.03 * (prefix + n)), max(prefix - 1, 0))
+    for c in range(xa):
+        if k:
+            d[rng.permutation(prefix)[:k], c] = rng.choice([-1, -300, -5000], size=k)
     floors = rng.integers(-20000, 10000, size=xa)
     return d, floors
+
+
+def floor_is_exact(d):
+    """d [m, xa] = raw - floor of the samples of one read: True when np.percentile(raw, 10, axis=0) is the floor exactly
+    (the two order statistics around the 10 % position are both samples at the floor)"""
+    d = np.asarray(d)
+    m = d.shape[0]
+    if m == 0:
+        return False
+    lo, hi = int(np.floor(0.1 * (m - 1))), int(np.ceil(0.1 * (m - 1)))
+    neg, zero = (d < 0).sum(axis=0), (d == 0).sum(axis=0)
+    return bool(np.all(neg <= lo) and np.all(hi <= neg + zero - 1))
 
 
 def need_prefix(n):
@@ -82,71 +158,187 @@ def need_prefix(n):
 # ------------------------------------------------------------------------------------------------
 # code -> spec records
 # ------------------------------------------------------------------------------------------------
-def word_records(words_signed):
+def word_argument(words_signed, form):
+    """the words as a caller may hold them -> (argument of split_sync, the value of each word as it was handed over)"""
+    ws = np.asarray(words_signed, dtype=np.int64)
+    i16 = ws.astype(np.int16)
+    if form == "int16":
+        return i16, ws
+    if form == "uint16":                 # the unsigned reading of the same 16 bits
+        return (ws % 65536).astype(np.uint16), ws % 65536
+    if form == "int32":
+        return ws.astype(np.int32), ws
+    if form == "int64u":
+        return ws % 65536, ws % 65536
+    if form == "float32":                # the sync column of Reader.read: float32 holding the int16 value
+        return ws.astype(np.float32), ws
+    if form == "column":                 # [n, 1]: what the Reader hands over
+        return i16[:, None], ws
+    if form == "strided":                # a column of a sample-major array: not contiguous
+        big = np.zeros((len(ws), 3), dtype=np.int16)
+        big[:, 1] = i16
+        return big[:, 1], ws
+    if form == "reversed":               # negative stride
+        return np.ascontiguousarray(i16[::-1])[::-1], ws
+    if form == "readonly":
+        i16.setflags(write=False)
+        return i16, ws
+    raise ValueError(form)
+
+
+def word_records(words_signed, form="int16"):
     """one vector call of the real split_sync, one record per word"""
     import spikeglx
     recs = []
+    arg, given = word_argument(words_signed, form)
     try:
-        out = spikeglx.split_sync(np.asarray(words_signed, dtype=np.int16))
+        out = spikeglx.split_sync(arg)
         out = np.asarray(out)
         ok = out.ndim == 2 and out.shape[0] == len(words_signed)
-        for i, w in enumerate(words_signed):
-            recs.append({"kind": "word", "w": int(w), "lines": [int(v) for v in out[i]] if ok else [], "exc": ""})
+        for i, w in enumerate(given):
+            recs.append({"kind": "word", "w": int(w), "lines": [int(v) for v in out[i]] if ok else [], "exc": "", "form": form})
     except Exception as e:
-        recs = [{"kind": "word", "w": int(w), "lines": [], "exc": type(e).__name__} for w in words_signed]
+        recs = [{"kind": "word", "w": int(w), "lines": [], "exc": type(e).__name__, "form": form} for w in given]
     return recs
 
 
-def read_record(binfile, words, diffs, thr, how="read_sync", sl=None):
-    """the real Reader on a real file -> one `read` record. words uint16 [ns], diffs [ns, xa] (raw - floor)"""
+class Shared:
+    """one Reader object for a sequence of reads: calls of different kinds are interleaved on the same object.
+    `via`: how the caller names the recording"""
+
+    def __init__(self, binfile, via="path"):
+        self.binfile, self.exc, self.sr, self.cm = binfile, "", None, None
+        try:
+            import spikeglx
+            if via == "path":
+                self.sr = spikeglx.Reader(binfile)
+            elif via == "str":
+                self.sr = spikeglx.Reader(str(binfile))
+            elif via == "meta":          # the metadata file stands for the recording next to it
+                self.sr = spikeglx.Reader(Path(binfile).with_suffix(".meta"))
+            elif via == "unsorted":
+                self.sr = spikeglx.Reader(binfile, sort=False)
+            elif via == "with":          # constructed closed, opened by the context manager
+                self.cm = spikeglx.Reader(binfile, open=False)
+                self.sr = self.cm.__enter__()
+            else:
+                raise ValueError(via)
+        except Exception as e:
+            self.exc = type(e).__name__
+
+    def close(self):
+        try:
+            if self.cm is not None:
+                self.cm.__exit__(None, None, None)
+            elif self.sr is not None:
+                self.sr.close()
+        except Exception:
+            pass
+
+
+def picked(ns, sel):
+    """the sample indices a selector (slice / list / index array) picks, as NumPy picks them"""
+    return np.arange(ns)[sel]
+
+
+def read_record(binfile, words, diffs, thr, how="read_sync", sl=None, shared=None):
+    """the real Reader on a real file -> one `read` record. words uint16 [n], diffs [n, xa] (raw - floor): what was written at
+    the samples that `sl` selects, in the order it selects them. `shared`: a Reader that served other calls before"""
     import spikeglx
     words = np.asarray(words, dtype=np.uint16)
     rec = {"kind": "read", "file": Path(binfile).name, "how": how,
            "words": [int(v) for v in words.view(np.int16)], "diffs": [[int(v) for v in r] for r in diffs],
-           "thr": thr, "rows": [], "exc": ""}
+           "thr": list(thr), "rows": [], "exc": "", "sel": repr(sl)[:80]}
+    own = shared is None
+    sh = Shared(binfile) if own else shared
     try:
-        sr = spikeglx.Reader(binfile)
-        try:
-            sl = slice(None) if sl is None else sl
-            if how == "read_sync":
-                kw = {} if thr == THR12 else {"threshold": thr[2] / thr[3]}
-                rows = sr.read_sync(sl, **kw)
-            elif how == "read":           # the sync returned alongside the data by Reader.read
-                rows = sr.read(nsel=sl, csel=slice(None), sync=True)[1]
-            elif how == "digital":
-                rows = sr.read_sync_digital(sl)
-            rec["rows"] = [[int(v) for v in r] for r in np.asarray(rows)]
-            rec["nonint"] = bool(np.any(np.asarray(rows) != np.round(np.asarray(rows))))
-        finally:
-            sr.close()
+        if sh.exc:
+            raise RuntimeError(sh.exc)
+        sr = sh.sr
+        sl = slice(None) if sl is None else sl
+        kw = {} if default_thr(thr) else {"threshold": thr[2] / thr[3]}
+        if how == "read_sync":
+            rows = sr.read_sync(sl, **kw)
+        elif how == "default":        # no argument at all: the first 10000 samples
+            rows = sr.read_sync(**kw)
+        elif how == "thr_pos":        # the threshold handed over positionally
+            rows = sr.read_sync(sl, thr[2] / thr[3])
+        elif how == "fp0":            # no floor removal: the voltage itself is thresholded (diffs = raw counts)
+            rows = sr.read_sync(sl, floor_percentile=0, **kw)
+        elif how == "read":           # the sync returned alongside the data by Reader.read
+            rows = sr.read(nsel=sl, csel=slice(None), sync=True)[1]
+        elif how == "read_pos":       # positional selection, channel selection and sync left at their defaults
+            rows = sr.read(sl)[1]
+        elif how == "read_csel":      # a channel selection concerns the data half only
+            rows = sr.read(nsel=sl, csel=[1, 0], sync=True)[1]
+        elif how == "read_default":
+            rows = sr.read()[1]
+        elif how == "samples":
+            rows = sr.read_samples(sl.start, sl.stop)[1]
+        elif how == "module":         # the module-level function opens a Reader of its own
+            rows = spikeglx.read(binfile, sl.start, sl.stop)[1]
+        elif how == "digital":
+            rows = sr.read_sync_digital(sl)
+        else:
+            raise tlc.TLCError(f"unknown read api {how}")
+        rec["rows"] = [[int(v) for v in r] for r in np.asarray(rows)]
+        rec["nonint"] = bool(np.any(np.asarray(rows) != np.round(np.asarray(rows))))
+    except tlc.TLCError:
+        raise
     except Exception as e:
-        rec["exc"] = type(e).__name__
+        rec["exc"] = sh.exc or type(e).__name__
+    finally:
+        if own:
+            sh.close()
     if how == "digital":
         rec["diffs"] = [[] for _ in words]
     return rec
 
 
-def fronts_on(arr, axis, step, lines, time_axis_first):
-    """real fronts / rises / falls on a 2-D array -> lists of [t, l(1-based), v] restricted to `lines`"""
+class IndexShape(Exception):
+    """the index array returned for a 2-D input is not [2, number of events]: args[0] = the clause that speaks about it"""
+
+
+def fronts_on(arr, axis, step, lines, time_axis_first, unit=1, falls_first=False):
+    """real fronts / rises / falls on a 2-D array -> lists of [t, l(1-based), v] restricted to `lines`.
+    `unit`: amplitude the values of fronts are expressed in (a value that is not a whole multiple reads as 99);
+    `falls_first`: the three functions are called on the same array object in the opposite order"""
     from ibldsp import utils
     want = set(lines)
 
-    def tl(ind):
+    def tl(ind, what):
         ind = np.asarray(ind)
+        if ind.ndim != 2 or ind.shape[0] != 2:
+            raise IndexShape(what)
         t, l = (ind[0], ind[1]) if time_axis_first else (ind[1], ind[0])
         return t, l + 1
-    ind, sign = utils.fronts(arr, axis=axis, step=step)
-    t, l = tl(ind)
-    fr = [[int(a), int(b), int(c)] for a, b, c in zip(t, l, sign) if int(b) in want]
-    t, l = tl(utils.rises(arr, axis=axis, step=step))
-    ri = [[int(a), int(b)] for a, b in zip(t, l) if int(b) in want]
-    t, l = tl(utils.falls(arr, axis=axis, step=-step))
-    fa = [[int(a), int(b)] for a, b in zip(t, l) if int(b) in want]
+
+    def val(c):
+        v = c / unit
+        return int(v) if v == int(v) else 99
+
+    def f_fronts():
+        ind, sign = utils.fronts(arr, axis=axis, step=step)
+        t, l = tl(ind, "Fronts")
+        return [[int(a), int(b), val(c)] for a, b, c in zip(t, l, sign) if int(b) in want]
+
+    def f_rises():
+        t, l = tl(utils.rises(arr, axis=axis, step=step), "Rises")
+        return [[int(a), int(b)] for a, b in zip(t, l) if int(b) in want]
+
+    def f_falls():
+        t, l = tl(utils.falls(arr, axis=axis, step=-step), "Falls")
+        return [[int(a), int(b)] for a, b in zip(t, l) if int(b) in want]
+    if falls_first:
+        fa, ri, fr = f_falls(), f_rises(), f_fronts()
+    else:
+        fr, ri, fa = f_fronts(), f_rises(), f_falls()
     return fr, ri, fa
 
 
-def ttl_record_from_file(binfile, words, aux, lines, sl=None):
-    """end to end: real recording -> read_sync -> fronts/rises/falls on the returned matrix"""
+def ttl_record_from_file(binfile, words, aux, lines, sl=None, how="read_sync"):
+    """end to end: real recording -> read_sync -> fronts/rises/falls on the returned matrix.
+    words / aux: what was written at the samples read (`sl`)"""
     import spikeglx
     words = np.asarray(words, dtype=np.uint16)
     rec = {"words": [int(v) for v in words], "aux": [[int(v) for v in r] for r in aux], "lines": sorted(lines),
@@ -154,7 +346,8 @@ def ttl_record_from_file(binfile, words, aux, lines, sl=None):
     try:
         sr = spikeglx.Reader(binfile)
         try:
-            rows = sr.read_sync(slice(None) if sl is None else sl)
+            sl = slice(None) if sl is None else sl
+            rows = sr.read_sync(sl) if how == "read_sync" else sr.read(nsel=sl, sync=True)[1]
         finally:
             sr.close()
         rec["fronts"], rec["rises"], rec["falls"] = fronts_on(rows, 0, 1, lines, True)
@@ -164,20 +357,34 @@ def ttl_record_from_file(binfile, words, aux, lines, sl=None):
 
 
 def ttl_record_direct(levels, amp, step, variant):
-    """direct call on an array built from abstract levels [n, nl]; lines 1..nl <-> bits 0..nl-1 of `words`"""
+    """direct call on an array built from abstract levels [n, nl]; lines 1..nl <-> bits 0..nl-1 of `words`.
+    `variant` picks element type, orientation and axis spelling, the idle level of the lines (a DC baseline: a front is a
+    change, whatever the level it starts from), a float amplitude (amp and step in units of 0.5) and the memory layout"""
     levels = np.asarray(levels)
     n, nl = levels.shape
     words = (levels * (1 << np.arange(nl))).sum(axis=1)
     rec = {"words": [int(v) for v in words], "aux": [[] for _ in range(n)], "lines": list(range(1, nl + 1)),
            "amp": amp, "step": step, "fronts": [], "rises": [], "falls": [], "exc": "", "variant": variant}
     dt = [np.int8, np.float64, np.int32, np.float32, np.int64][variant % 5]
-    arr = (levels * amp).astype(dt)
+    base = [0, 5, -3, 0, 40][(variant // 10) % 5]
+    unit = 0.5 if (np.issubdtype(dt, np.floating) and (variant // 50) % 2 == 1) else 1
+    arr = ((levels * amp + base) * unit).astype(dt)
+    view = (variant // 7) % 3           # 0 contiguous, 1 non-contiguous view, 2 read-only
     try:
         if variant % 2 == 0:
-            rec["fronts"], rec["rises"], rec["falls"] = fronts_on(arr, 0, step, rec["lines"], True)
+            if view == 1:
+                arr = np.asfortranarray(arr)
+            a = arr
+            ax = [0, -2][(variant // 2) % 2]
+            tf = True
         else:
-            rec["fronts"], rec["rises"], rec["falls"] = fronts_on(np.ascontiguousarray(arr.T), [-1, 1][variant % 3 == 0],
-                                                                 step, rec["lines"], False)
+            a = arr.T if view == 1 else np.ascontiguousarray(arr.T)
+            ax = [-1, 1][variant % 3 == 0]
+            tf = False
+        if view == 2:
+            a.setflags(write=False)
+        rec["fronts"], rec["rises"], rec["falls"] = fronts_on(a, ax, step * unit, rec["lines"], tf, unit=unit,
+                                                             falls_first=(variant // 3) % 2 == 1)
     except Exception as e:
         rec["exc"] = type(e).__name__
     return rec
@@ -215,66 +422,166 @@ def compare(obs, exp, what):
 
 
 def direct_calls(levels, ev, idx):
-    """1-D per line, 2-D both orientations / axes, several dtypes, analog=True on voltages around a step.
-    yields (label, clause) for every failing comparison"""
+    """1-D per line, 2-D both orientations / every axis spelling, several dtypes, memory layouts, idle levels and amplitudes,
+    analog=True on voltages around a step. `idx` rotates the variants over the trains.
+    returns (label, clause) for every failing comparison (an exception of the real code is the clause `Raised:<type>`)"""
     from ibldsp import utils
     levels = np.asarray(levels)
     n, nl = levels.shape
     ident = list(range(1, nl + 1))
     F, R, D = expected_sets(ev, ident)
     out = []
+
+    def add(label, f, exp=None):
+        try:
+            out.append((label, compare(f(), exp or (F, R, D), "")))
+        except IndexShape as e:
+            out.append((label, e.args[0]))
+        except Exception as e:
+            out.append((label, "Raised:" + type(e).__name__))
+
+    def per_line(l):
+        return {f for f in F if f[1] == l + 1}, {r for r in R if r[1] == l + 1}, {d for d in D if d[1] == l + 1}
+
+    def one_d(x, l, unit=1, step=None, **kw):
+        """fronts / rises / falls on a vector; step None = the functions' own defaults"""
+        ks = {} if step is None else {"step": step}
+        kf = {} if step is None else {"step": -step}
+        ind, sign = utils.fronts(x, **kw, **ks)
+        ok = np.asarray(ind).ndim == 1
+        fr = [[int(t), l + 1, int(s / unit) if s / unit == int(s / unit) else 99] for t, s in zip(ind, sign)] if ok else [[-1, -1, 0]]
+        ri = [[int(t), l + 1] for t in utils.rises(x, **kw, **ks)]
+        fa = [[int(t), l + 1] for t in utils.falls(x, **kw, **kf)]
+        return fr, ri, fa
+
     dts = [np.int8, np.float64, np.int16, np.float32, np.int64]
     dt = dts[idx % 5]
     a = levels.astype(dt)
-    # 2-D, time along axis 0 (what read_sync returns) and along the last axis
-    out.append(("2d-axis0-" + dt.__name__, compare(fronts_on(a, 0, 1, ident, True), (F, R, D), "")))
+    # 2-D, time along axis 0 (what read_sync returns; spelt 0 or -2) and along the last axis
+    add("2d-axis0-" + dt.__name__, lambda: fronts_on(a, 0, 1, ident, True))
+    if idx % 2 == 0:
+        add("2d-axis-2-" + dt.__name__, lambda: fronts_on(a, -2, 1, ident, True, falls_first=idx % 4 == 2))
     at = np.ascontiguousarray(a.T)
-    out.append(("2d-axis-1-" + dt.__name__, compare(fronts_on(at, -1, 1, ident, False), (F, R, D), "")))
-    out.append(("2d-axis1-" + dt.__name__, compare(fronts_on(at, 1, 1, ident, False), (F, R, D), "")))
+    add("2d-axis-1-" + dt.__name__, lambda: fronts_on(at, -1, 1, ident, False))
+    add("2d-axis1-" + dt.__name__, lambda: fronts_on(at, 1, 1, ident, False))
+
     # defaults (axis=-1, step=1 / -1) as a caller would write them
-    ind, sign = utils.fronts(at)
-    fr = [[int(t), int(l) + 1, int(s)] for l, t, s in zip(ind[0], ind[1], sign)]
-    ri = [[int(t), int(l) + 1] for l, t in zip(*utils.rises(at))]
-    fa = [[int(t), int(l) + 1] for l, t in zip(*utils.falls(at))]
-    out.append(("2d-defaults-" + dt.__name__, compare((fr, ri, fa), (F, R, D), "")))
+    def defaults():
+        ind, sign = utils.fronts(at)
+        fr = [[int(t), int(l) + 1, int(s)] for l, t, s in zip(ind[0], ind[1], sign)]
+        ri = [[int(t), int(l) + 1] for l, t in zip(*utils.rises(at))]
+        fa = [[int(t), int(l) + 1] for l, t in zip(*utils.falls(at))]
+        return fr, ri, fa
+    add("2d-defaults-" + dt.__name__, defaults)
     # 1-D, line by line
     for l in range(nl):
         x = a[:, l].copy()
-        ind, sign = utils.fronts(x)
-        ok = np.asarray(ind).ndim == 1
-        fr = [[int(t), l + 1, int(s)] for t, s in zip(ind, sign)] if ok else [[-1, -1, 0]]
-        ri = [[int(t), l + 1] for t in utils.rises(x)]
-        fa = [[int(t), l + 1] for t in utils.falls(x)]
-        Fl = {f for f in F if f[1] == l + 1}
-        out.append((f"1d-line{l + 1}-" + dt.__name__, compare((fr, ri, fa), (Fl, {r for r in R if r[1] == l + 1},
-                                                                            {d for d in D if d[1] == l + 1}), "")))
+        add(f"1d-line{l + 1}-" + dt.__name__, lambda: one_d(x, l), per_line(l))
+
     # analog=True: voltages just below / just above the step (rises: > step, falls: < step), far below / above
     rs = np.random.default_rng(idx)
     s = [1.2, 3.0, 0.5, 2.5][idx % 4]
     lo = np.array([np.nextafter(s, -np.inf), s - 0.7, s - 1e-3, -4.0])
     hi = np.array([np.nextafter(s, np.inf), s + 0.7, s + 1e-3, 9.0])
     v = np.where(levels == 1, rs.choice(hi, size=levels.shape), rs.choice(lo, size=levels.shape))
-    ri = [[int(t), int(l) + 1] for t, l in zip(*utils.rises(v, axis=0, step=s, analog=True))]
-    fa = [[int(t), int(l) + 1] for t, l in zip(*utils.falls(v, axis=0, step=s, analog=True))]
-    out.append((f"analog-step{s}", compare(([[t, l, p] for t, l, p in F], ri, fa), (F, R, D), "")))
+    Fl = [[t, l, p] for t, l, p in F]
+
+    def analog_tl(v, s):
+        ri = [[int(t), int(l) + 1] for t, l in zip(*utils.rises(v, axis=0, step=s, analog=True))]
+        fa = [[int(t), int(l) + 1] for t, l in zip(*utils.falls(v, axis=0, step=s, analog=True))]
+        return Fl, ri, fa
+    add(f"analog-step{s}", lambda: analog_tl(v, s))
+
+    # ---- rotating: the forms in which a caller may hold the same lines
+    r = idx % 8
+    if r == 0:
+        # memory layouts: transposed view (not contiguous); each array object serves two rounds of calls in opposite orders
+        # (an argument is the caller's: what the second round sees is what the first was given)
+        av = levels.astype(dt)
+        for rnd in (0, 1):
+            add(f"2d-view-T-round{rnd}", lambda: fronts_on(av.T, -1, 1, ident, False, falls_first=rnd == 1))
+    elif r == 1:
+        # Fortran order, read-only
+        af = np.asfortranarray(levels.astype(dt))
+        af.setflags(write=False)
+        for rnd in (0, 1):
+            add(f"2d-fortran-readonly-round{rnd}", lambda: fronts_on(af, 0, 1, ident, True, falls_first=rnd == 0))
+    elif r == 2:
+        av = levels.astype(dt)
+        for l in range(nl):
+            xv = av[:, l]                               # strided view of a column; the axis of a vector spelt out
+            add(f"1d-view-line{l + 1}-axis0", lambda: one_d(xv, l, axis=0), per_line(l))
+            add(f"1d-view-line{l + 1}-axis-1", lambda: one_d(xv, l, axis=-1, step=1), per_line(l))
+    elif r == 3:
+        # lines that idle at another level than 0 and switch by another amount than 1 (integers)
+        base, amp = [(-7, 1), (12, 3), (1000, 2), (5, 1)][(idx // 8) % 4]
+        di = [np.int16, np.int32, np.int64][(idx // 32) % 3]
+        ab = (base + amp * levels).astype(di)
+        st = [1, amp][(idx // 16) % 2]
+        add(f"2d-base{base}-amp{amp}-step{st}-axis0", lambda: fronts_on(ab, 0, st, ident, True, unit=amp))
+        abt = np.ascontiguousarray(ab.T)
+        add(f"2d-base{base}-amp{amp}-step{st}-axis-1", lambda: fronts_on(abt, -1, st, ident, False, unit=amp))
+        for l in range(nl):
+            xb = ab[:, l].copy()
+            add(f"1d-base{base}-amp{amp}-line{l + 1}", lambda: one_d(xb, l, unit=amp, step=st), per_line(l))
+    elif r == 4:
+        # the same in volts: float amplitudes and steps (all exactly representable), float64 and float32
+        base, amp = [(3.25, 0.5), (-2.0, 5.0), (100.0, 2.5), (0.75, 0.25)][(idx // 8) % 4]
+        df = [np.float64, np.float32][(idx // 32) % 2]
+        ab = (base + amp * levels).astype(df)
+        st = [amp, amp / 2][(idx // 16) % 2]
+        add(f"2d-base{base}-amp{amp}-step{st}-axis0", lambda: fronts_on(ab, 0, st, ident, True, unit=amp))
+        add(f"2d-base{base}-amp{amp}-step{st}-axis1", lambda: fronts_on(ab.T, 1, st, ident, False, unit=amp))
+        for l in range(nl):
+            xb = ab[:, l]
+            add(f"1d-base{base}-amp{amp}-line{l + 1}", lambda: one_d(xb, l, unit=amp, step=st), per_line(l))
+    elif r == 5:
+        # analog=True in the other forms: lines x time along the last axis (spelt -1 or 1), vectors
+        vt = np.ascontiguousarray(v.T)
+        ax = [-1, 1][(idx // 8) % 2]
+
+        def analog_lt():
+            ri = [[int(t), int(l) + 1] for l, t in zip(*utils.rises(vt, axis=ax, step=s, analog=True))]
+            fa = [[int(t), int(l) + 1] for l, t in zip(*utils.falls(vt, axis=ax, step=s, analog=True))]
+            return Fl, ri, fa
+        add(f"analog-step{s}-axis{ax}", analog_lt)
+        for l in range(nl):
+            xl = v[:, l]
+            Fq, Rq, Dq = per_line(l)
+
+            def analog_1d():
+                return ([[t, q, p] for t, q, p in Fq], [[int(t), l + 1] for t in utils.rises(xl, step=s, analog=True)],
+                        [[int(t), l + 1] for t in utils.falls(xl, step=s, analog=True)])
+            add(f"analog-step{s}-1d-line{l + 1}", analog_1d, (Fq, Rq, Dq))
+    elif r == 6:
+        # analog=True on float32 and on integers
+        v32 = np.where(levels == 1, s + 0.7, s - 1e-3).astype(np.float32)
+        add(f"analog-step{s}-float32", lambda: analog_tl(v32, s))
+        vi = (levels * 3 + 1).astype(np.int16)            # 1 / 4 around an integer step 2: (x > 2)
+        add("analog-step2-int16", lambda: analog_tl(vi, 2))
     return [(lab, c) for lab, c in out if c]
 
 
 class Batch:
-    """many TLC trains in one pair of real recordings (3B imec + nidq), each train in its own segment"""
+    """many TLC trains in one pair of real recordings (imec + nidq), each train in its own segment.
+    `cfg` picks the form of the imec recording (IMEC_FORMS) and the channel layout of the nidq one (LAYOUTS; compressed for
+    the last)"""
 
-    def __init__(self, cases, seed, thr_name):
+    def __init__(self, cases, seed, thr_name, cfg=0):
         self.cases = cases
         self.rng = np.random.default_rng(seed)
         self.thr_name = thr_name
         self.thr = THRS[thr_name]
+        self.cfg = cfg % 4
+        self.lay = LAYOUTS[self.cfg]
+        self.imec = IMEC_FORMS[self.cfg]
         self.seg = []
 
     def build(self, folder, stem):
         rng = self.rng
-        wi, wn, an, fl = [], [], [], None
+        xa = self.lay["xa"]
+        wi, wn, an = [], [], []
         pos_i = pos_n = 0
-        floors = rng.integers(-20000, 10000, size=NIDQ["xa"])
         for c in self.cases:
             lev = np.asarray(c["x"])
             n, nl = lev.shape
@@ -287,65 +594,78 @@ class Batch:
             # nidq: random distinct lines among 16 digital + analog ones (at least one analog when possible)
             pool = [int(v) + 1 for v in rng.permutation(16)]
             m_n = pool[:nl]
-            ana = [int(v) for v in rng.permutation(NIDQ["xa"])[:rng.integers(1, min(nl, NIDQ["xa"]) + 1)]]
+            ana = [int(v) for v in rng.permutation(xa)[:rng.integers(1, min(nl, xa) + 1)]]
             for j, aidx in enumerate(ana):
                 m_n[j] = 17 + aidx
             pre = need_prefix(n)
             bgn = rng.integers(0, 65536, size=pre + n).astype(np.int64)
-            alev = rng.integers(0, 2, size=(n, NIDQ["xa"]))
+            alev = rng.integers(0, 2, size=(n, xa))
             for k, l in enumerate(m_n):
                 if l <= 16:
                     bgn[pre:] = (bgn[pre:] & ~(1 << (l - 1))) | (lev[:, k].astype(np.int64) << (l - 1))
                 else:
                     alev[:, l - 17] = lev[:, k]
             # background analog lines must keep >= 10 % of samples at the floor too: their prefix does that
-            d, _ = analog_from_levels(alev, self.thr_name, rng, pre)
+            # every segment rests on a floor of its own (DC drift along the recording): each read finds its floor anew
+            d, fl = analog_from_levels(alev, self.thr_name, rng, pre)
             wn.append(bgn)
-            an.append(d)
+            an.append(d + fl[None, :])
             self.seg.append({"i": (pos_i, pos_i + n), "n": (pos_n, pos_n + pre + n), "pre": pre, "mi": m_i, "mn": m_n,
                              "alev": alev})
             pos_i += n
             pos_n += pre + n
         self.wi = np.concatenate(wi).astype(np.uint16)
         self.wn = np.concatenate(wn).astype(np.uint16)
-        self.diffs = np.concatenate(an)
-        self.floors = floors
-        self.f_imec = make_imec(folder, stem, self.wi, rng)
-        self.f_nidq = make_nidq(folder, stem, self.wn, self.diffs + floors[None, :], rng)
+        self.f_imec = make_imec(folder, stem, self.wi, rng, **self.imec)
+        self.f_nidq = make_nidq(folder, stem, self.wn, np.concatenate(an), rng, lay=self.lay, cbin=700 if self.cfg == 3 else 0)
 
     def run(self, ctx, key_prefix):
-        import spikeglx
         bad = []
-        sri = spikeglx.Reader(self.f_imec)
-        srn = spikeglx.Reader(self.f_nidq)
+        xa = self.lay["xa"]
+        shi, shn = Shared(self.f_imec), Shared(self.f_nidq)
+        sri, srn = shi.sr, shn.sr
         kw = {} if self.thr_name == "1.2" else {"threshold": self.thr[2] / self.thr[3]}
         try:
-            for c, s in zip(self.cases, self.seg):
+            for j, (c, s) in enumerate(zip(self.cases, self.seg)):
                 lev = np.asarray(c["x"])
                 n, nl = lev.shape
-                # ---- imec
-                rows = sri.read_sync(slice(*s["i"]))
-                cl = layout_clause(rows, n, 16) or lines_clause(rows, lev, s["mi"])
-                if not cl:
-                    cl = compare(fronts_on(rows, 0, 1, s["mi"], True), expected_sets(c["ev"], s["mi"]), "")
+                # ---- imec (every third train through Reader.read, the others through read_sync)
+                try:
+                    if shi.exc:
+                        raise RuntimeError
+                    rows = sri.read(nsel=slice(*s["i"]), sync=True)[1] if j % 3 == 2 else sri.read_sync(slice(*s["i"]))
+                    cl = layout_clause(rows, n, 16) or lines_clause(rows, lev, s["mi"])
+                    if not cl:
+                        cl = compare(fronts_on(rows, 0, 1, s["mi"], True), expected_sets(c["ev"], s["mi"]), "")
+                except IndexShape as e:
+                    cl = e.args[0]
+                except Exception as e:
+                    cl = "Raised:" + (shi.exc or type(e).__name__)
                 if cl:
                     bad.append(("imec", cl, c, s))
                 # ---- nidq (floor prefix read with the train: the percentile is taken over the slice)
-                rows = srn.read_sync(slice(*s["n"]), **kw)
-                cl = layout_clause(rows, s["pre"] + n, 16 + NIDQ["xa"])
-                if not cl and np.any(rows[:s["pre"], 16:] != 0):
-                    cl = "AnalogThreshold"
-                if not cl:
-                    rows = rows[s["pre"]:]
-                    cl = lines_clause(rows, lev, s["mn"])
-                if not cl:
-                    cl = compare(fronts_on(rows, 0, 1, s["mn"], True), expected_sets(c["ev"], s["mn"]), "")
+                try:
+                    if shn.exc:
+                        raise RuntimeError
+                    rows = srn.read_sync(slice(*s["n"]), **kw)
+                    cl = layout_clause(rows, s["pre"] + n, 16 + xa)
+                    if not cl and np.any(rows[:s["pre"], 16:] != 0):
+                        cl = "AnalogThreshold"
+                    if not cl:
+                        rows = rows[s["pre"]:]
+                        cl = lines_clause(rows, lev, s["mn"])
+                    if not cl:
+                        cl = compare(fronts_on(rows, 0, 1, s["mn"], True), expected_sets(c["ev"], s["mn"]), "")
+                except IndexShape as e:
+                    cl = e.args[0]
+                except Exception as e:
+                    cl = "Raised:" + (shn.exc or type(e).__name__)
                 if cl:
                     bad.append(("nidq", cl, c, s))
                 ctx.count(2, key=(key_prefix, json.dumps(c["x"])) if len(c["ev"]) > 0 else None)
         finally:
-            sri.close()
-            srn.close()
+            shi.close()
+            shn.close()
         return bad
 
 
@@ -380,6 +700,7 @@ def run_models(ctx):
     else:
         runs += [("mc/MC_TTL.tla", "mc/TTL_thorough.cfg", None), ("mc/MC_TTL.tla", "mc/TTL_export2.cfg", "ttl2.json")]
     runs.append(("mc/MC_TTL.tla", "mc/TTL_export3.cfg", "ttl3.json"))
+    runs.append(("mc/MC_TTL.tla", "mc/TTL_export1.cfg", "ttl1.json"))      # one line: 2-D arrays [n, 1] and [1, n]
     from concurrent.futures import ThreadPoolExecutor
 
     def one(r):
@@ -412,14 +733,26 @@ def run(ctx):
     # ---------------- code -> spec : decoding -------------------------------------------------
     allw = rng.permutation(np.arange(-32768, 32768))
     recs = word_records(allw)
-    ctx.count(len(recs))
     for r in recs:
         ctx._distinct.add(("word", r["w"]))
+    # the same words as other callers hold them (sign bit, byte boundaries and a seeded sample; all of them in the thorough tier)
+    edge = [-32768, -32767, -256, -255, -2, -1, 0, 1, 127, 128, 255, 256, 257, 32767, 21845, -21846]
+    for k, form in enumerate(WORD_FORMS):
+        nf = 500 if ctx.quick else 8192
+        recs += word_records(edge + [int(v) for v in allw[k * nf:(k + 1) * nf]], form)
+    ctx.count(len(recs))
     folder = ctx.scratch / "rec"
     reads = read_cases(ctx, folder, rng)
-    verd = tracecheck.validate(ctx, "trace/SyncBitsTrace.tla", "trace/SyncBitsTrace.cfg", recs + reads, label="syncbits",
+    # the reads are dealt over the four batches of words (each batch is one JVM)
+    q = -(-len(recs) // 4)
+    groups = [[], [], [], []]
+    for r in sorted(reads, key=lambda r: -len(r["words"])):
+        min(groups, key=lambda g: sum(len(t["words"]) for t in g)).append(r)
+    allrecs = []
+    for k in range(4):
+        allrecs += recs[k * q:(k + 1) * q] + groups[k]
+    verd = tracecheck.validate(ctx, "trace/SyncBitsTrace.tla", "trace/SyncBitsTrace.cfg", allrecs, label="syncbits",
                                jvms=4, workers=2, nstates=lambda t: 3)
-    allrecs = recs + reads
     for v in verd:
         t = allrecs[v["index"]]
         report_sync(ctx, t, v)
@@ -434,12 +767,15 @@ def run(ctx):
     filecases = [cases[i] for i in order[:nfile]]
     nb = 0
     for b0 in range(0, len(filecases), 500):
-        bt = Batch(filecases[b0:b0 + 500], ctx.seed * 1000 + nb, THR_ORDER[nb % 4])
+        # thresholds and recording forms rotate at different rates: (4 thresholds) x (4 forms) over the thorough tier
+        bt = Batch(filecases[b0:b0 + 500], ctx.seed * 1000 + nb, THR_ORDER[nb % 4], cfg=(nb + nb // 4) % 4)
         bt.build(folder, f"trains{nb}")
         for kind, cl, c, s in bt.run(ctx, "file"):
             ctx.violation(f"ttl:{cl}", f"train {c['x']} written on lines {s['mi'] if kind == 'imec' else s['mn']} of a real "
-                          f"{kind} recording: clause {cl} false on what read_sync / fronts returned",
-                          {"kind": "train", "x": c["x"], "ev": c["ev"], "seed": ctx.seed * 1000 + nb, "thr": bt.thr_name})
+                          f"{kind} recording ({bt.f_imec.name if kind == 'imec' else bt.f_nidq.name}, nidq layout {bt.lay}): "
+                          f"clause {cl} false on what read_sync / fronts returned",
+                          {"kind": "train", "x": c["x"], "ev": c["ev"], "seed": ctx.seed * 1000 + nb, "thr": bt.thr_name,
+                           "cfg": bt.cfg})
         nb += 1
     for idx, c in enumerate(cases):
         for lab, cl in direct_calls(c["x"], c["ev"], idx):
@@ -466,14 +802,18 @@ def run(ctx):
                           f"amp {t['amp']}, step {t['step']}: clause {v['prop']} false ({v['pos']} true events)",
                           {"kind": "ttltrace", "trace": t})
     selftest(ctx, allrecs, ttl, cases)
-    ctx.cov["rule"] = ("model: all 65536 words through split_sync's steps; every 0/1 train of the box (lines x length) x array "
-                       "orientation; traces: the real split_sync on all 65536 words, real Reader.read_sync rows of real 3B/nidq "
-                       "recordings, real fronts/rises/falls on what read_sync returned; replay: every exported train on arrays, a "
-                       "seeded subset written into real recordings; non-trivial = a train with at least one event / a distinct word")
+    ctx.cov["rule"] = ("model: all 65536 words through split_sync's steps; every 0/1 train of the box (1-3 lines x length) x array "
+                       "orientation x axis spelling; traces: the real split_sync on all 65536 words (and in 8 other argument forms), "
+                       "rows of every reading API of the real Reader on real recordings (all probe kinds, ap / lf, flat / .cbin, nidq "
+                       "layouts with 0-8 analog lines, selectors), real fronts/rises/falls on what read_sync returned; replay: every "
+                       "exported train on arrays (layouts, idle levels, amplitudes, analog), a seeded subset written into real "
+                       "recordings of rotating forms; non-trivial = a train with at least one event / a distinct word")
     ctx.cov["exhaustive"] = True
     ctx.assumptions += ["nidq analog values are exact in float32 (5 V / 32768 per count, floor = a raw count held by > 10 % of the "
                         "samples of the slice read): thresholding is decided in integer arithmetic by the spec",
-                        "one digital sync word per sample (snsMnMaXaDw DW = 1)",
+                        "one digital sync word per sample (snsMnMaXaDw DW = 1; with 0 or 2 words read_sync raises on the unchanged "
+                        "code); at least one sample selected, by a slice / list / index array (an empty selection and a bare integer "
+                        "raise on nidq files with analog lines); lines handed to fronts / rises / falls as signed integers or floats",
                         "falls/rises(analog=True) are exercised just below / just above the step, not exactly at it (the two "
                         "functions document different conventions there)"]
 
@@ -481,11 +821,13 @@ def run(ctx):
 def report_sync(ctx, t, v):
     if v["prop"]:
         if t["kind"] == "word":
-            ctx.violation("sync:" + v["prop"].split(":")[0], f"split_sync(word {t['w']} = {t['w'] % 65536:#06x}) returned {t['lines']}: "
-                          f"clause {v['prop']} false", {"kind": "word", "w": t["w"]})
+            ctx.violation("sync:" + v["prop"].split(":")[0], f"split_sync(word {t['w']} = {t['w'] % 65536:#06x}, handed over as "
+                          f"{t.get('form', 'int16')}) returned {t['lines']}: clause {v['prop']} false",
+                          {"kind": "word", "w": t["w"], "form": t.get("form", "int16")})
         else:
-            ctx.violation("sync:" + v["prop"].split(":")[0], f"Reader.{t['how']} on {t['file']}: clause {v['prop']} false at sample "
-                          f"{v['pos'] - 1}", {"kind": "read", "trace": {k: t[k] for k in t if k != "rows"}, "gen": t.get("gen")})
+            ctx.violation("sync:" + v["prop"].split(":")[0], f"Reader.{t['how']} on {t['file']} (samples {t.get('sel')}, "
+                          f"{t.get('gen')}): clause {v['prop']} false at row {v['pos'] - 1}",
+                          {"kind": "read", "trace": {k: t[k] for k in t if k != "rows"}, "gen": t.get("gen")})
     elif v["impl"]:
         ctx.spec_drift(f"{t['kind']} record: {v['impl']} differs from the implementation layer, property layer holds")
 
@@ -493,54 +835,117 @@ def report_sync(ctx, t, v):
 def read_cases(ctx, folder, rng):
     """real recordings read through the Reader -> `read` records"""
     out = []
-    # all 65536 words through a real 3B recording (8 saved channels + sync), read in slices
+
+    def emit(f, gen, sh, words, diffs, thr, how, sl):
+        r = read_record(f, words, diffs, thr, how, sl=sl, shared=sh)
+        r["gen"] = gen
+        out.append(r)
+
+    # ---- all 65536 words through a real 3B recording (8 saved channels + sync): one Reader object serves every call, the
+    # first with no argument at all (samples 0..10000), the others in slices through every reading API in turn
     w = rng.permutation(65536).astype(np.uint16)
     f = make_imec(folder, "allwords", w, rng)
-    for a in range(0, 65536, 4096):
-        r = read_record(f, w[a:a + 4096], [[]] * 4096, THR12, "read_sync" if (a // 4096) % 2 == 0 else "digital",
-                        sl=slice(a, a + 4096))
-        r["gen"] = {"file": "allwords", "a": a}
-        out.append(r)
-    # full-size 385-channel 3B and 3A-style (3A sync is the 385th channel as well)
-    for kind, n in [("3B2", 384), ("3A", 384), ("3B1", 384)]:
-        ns = 300 if ctx.quick else 2000
+    sh = Shared(f)
+    emit(f, {"file": "allwords", "a": 0}, sh, w[:10000], [[]] * 10000, THR12, "default", None)
+    apis = ["read_sync", "digital", "read", "read_pos", "read_csel", "samples", "module"]
+    for k, a in enumerate(range(10000, 65536, 4096)):
+        b = min(a + 4096, 65536)
+        emit(f, {"file": "allwords", "a": a}, sh, w[a:b], [[]] * (b - a), THR12, apis[k % len(apis)], slice(a, b))
+    sh.close()
+
+    # ---- every probe kind and stream at full size (3A sync is the 385th channel as well), named in every way
+    ns = 300 if ctx.quick else 2000
+    vias = ["path", "str", "meta", "unsorted", "with"]
+    for k, (kind, stream, nshank) in enumerate([("3B2", "ap", 1), ("3A", "ap", 1), ("3B1", "ap", 1), ("NP2.1", "ap", 1),
+                                                ("NP2.4", "ap", 4), ("NPultra", "ap", 1), ("3B2", "lf", 1), ("3A", "lf", 1)]):
         w = rng.integers(0, 65536, size=ns).astype(np.uint16)
-        f = make_imec(folder, "full" + kind.replace(".", ""), w, rng, nch=n, kind=kind)
-        for how in ("read_sync", "read"):
-            r = read_record(f, w, [[]] * ns, THR12, how)
-            r["gen"] = {"file": "full", "kind": kind}
-            out.append(r)
-    # nidq with analog lines around the threshold above per-line floors
-    nrec = 6 if ctx.quick else 40
+        f = make_imec(folder, "full" + kind.replace(".", "") + stream, w, rng, nch=384, kind=kind, stream=stream, nshank=nshank)
+        sh = Shared(f, via=vias[k % len(vias)])
+        for how in ("read_sync", ["read", "read_csel", "read_default", "read_pos"][k % 4]):
+            emit(f, {"file": "full", "kind": kind, "stream": stream, "via": vias[k % len(vias)]}, sh, w, [[]] * ns, THR12, how, None)
+        sh.close()
+
+    # ---- selectors, on a flat file and on the same recording compressed in several chunks (bounds inside, on and across
+    # chunk borders; steps; backwards; negative and past-the-end bounds); index arrays and lists on the flat file
+    ns, ck = (1200, 400) if ctx.quick else (6000, 1000)
+    w = rng.integers(0, 65536, size=ns).astype(np.uint16)
+    sels = [slice(None), slice(ck - 10, ck + 10), slice(ck - 1, 2 * ck + 1), slice(0, ns, 3), slice(ns - 200, 40, -7),
+            slice(None, None, -2), slice(-10, None), slice(ns - 10, ns + 800), slice(ck, 2 * ck), slice(5, -5, 2 * ck - 1)]
+    arrs = [np.array([ns - 1, 0, ck, ck, 7]), [3, 2, 1], np.sort(rng.integers(0, ns, size=50)), rng.integers(-ns, ns, size=40),
+            np.arange(ck - 5, ck + 5, dtype=np.int32), rng.permutation(ns)[:60].astype(np.uint16)]
+    hows = ["read_sync", "read", "digital", "read_pos", "read_csel"]
+    for form, cbin in (("flat", 0), ("cbin", ck)):
+        f = make_imec(folder, "sel" + form, w, rng, cbin=cbin)
+        sh = Shared(f)
+        for k, sl in enumerate(sels + (arrs if not cbin else [])):
+            ws = w[sl] if isinstance(sl, slice) else w[picked(ns, sl)]
+            emit(f, {"file": "sel", "form": form, "k": k}, sh, ws, [[]] * len(ws), THR12, hows[(k + (cbin > 0)) % len(hows)], sl)
+        sh.close()
+
+    # ---- nidq: channel layouts, full-scale ranges, thresholds; analog lines around the threshold above per-line floors
+    nrec = 8 if ctx.quick else 48
     for i in range(nrec):
-        thr_name = THR_ORDER[i % 4]
-        thr = THRS[thr_name]
+        lay = LAYOUTS_READ[i % len(LAYOUTS_READ)]
+        xa = lay["xa"]
+        range_max = [5, 5, 10, 5, 5, 2.5, 10, 5][i % 8]
+        thr_name = THR_ORDER[i % 4] if range_max != 2.5 else ["1.2", "0.625"][(i // 8) % 2]
+        thr = thr_for(thr_name, range_max)
         n = int(rng.integers(20, 400))
-        lev = rng.integers(0, 2, size=(n, NIDQ["xa"]))
-        if i % 3 == 0:
+        lev = rng.integers(0, 2, size=(n, xa))
+        if i % 3 == 0 and xa:
             lev[:, 0] = (np.arange(n) // max(1, n // 7)) % 2       # slow square wave
         pre = need_prefix(n)
-        d, floors = analog_from_levels(lev, thr_name, rng, pre)
+        d, floors = analog_from_levels(lev, thr, rng, pre)
         w = rng.integers(0, 65536, size=pre + n).astype(np.uint16)
-        f = make_nidq(folder, f"nidq{i}", w, d + floors[None, :], rng)
-        r = read_record(f, w, d, thr, "read_sync")
-        r["gen"] = {"file": "nidq", "i": i}
-        out.append(r)
+        f = make_nidq(folder, f"nidq{i}", w, d + floors[None, :], rng, lay=lay, range_max=range_max, cbin=97 if i % 8 == 3 else 0)
+        gen = {"file": "nidq", "i": i, "layout": lay, "range": range_max, "thr": thr_name}
+        sh = Shared(f)
+        emit(f, gen, sh, w, d, thr, "read_sync" if i % 2 == 0 else "thr_pos", None)
+        # a second look at the same recording through a selector: the floor is that of the samples selected
+        m = pre + n
+        cands = [slice(0, m, 2), slice(m - 1, None, -1), np.r_[rng.permutation(pre), pre + np.sort(rng.permutation(n)[:n // 2])],
+                 slice(0, pre + n // 2)]
+        sl = cands[i % 4]
+        if isinstance(sl, np.ndarray) and f.suffix == ".cbin":
+            sl = cands[0]
+        idx = picked(m, sl)
+        if xa == 0 or floor_is_exact(d[idx]):
+            how = "read_sync" if not default_thr(thr) else ["read_csel", "read_pos", "read", "read_sync"][(i // 4) % 4]
+            if how == "read_csel" and lay["mn"] + lay["ma"] + xa < 2:
+                how = "read"
+            emit(f, gen, sh, w[idx], d[idx], thr, how, sl)
+        sh.close()
+
+    # ---- nidq with floor_percentile=0: nothing is subtracted, the voltage itself is compared with the threshold
+    for i in range(2 if ctx.quick else 8):
+        lay = LAYOUTS[(i + 1) % 4]
+        thr_name = THR_ORDER[i % 4]
+        thr = THRS[thr_name]
+        n = int(rng.integers(30, 200))
+        lev = rng.integers(0, 2, size=(n, lay["xa"]))
+        bnd = classes(thr)[1][0]
+        raw = np.where(lev == 1, rng.choice([bnd, bnd + 1, bnd + 300], size=lev.shape),
+                       rng.choice([bnd - 1, bnd - 2, bnd - 500], size=lev.shape))     # lows far above zero volts
+        w = rng.integers(0, 65536, size=n).astype(np.uint16)
+        f = make_nidq(folder, f"nidqfp{i}", w, raw, rng, lay=lay)
+        emit(f, {"file": "nidqfp", "i": i, "layout": lay, "thr": thr_name, "floor_percentile": 0}, None, w, raw, thr, "fp0", None)
     ctx.count(sum(len(r["words"]) for r in out))
     return out
 
 
 def long_train_records(ctx, folder, rng):
-    """random long event trains on random line subsets, end to end through real files"""
+    """random long event trains on random line subsets, end to end through real files (imec forms and nidq layouts in turn)"""
     out = []
     ntr, ns = (24, 1500) if ctx.quick else (200, 10000)
     for i in range(ntr):
         nl = int(rng.integers(1, 6))
         use_nidq = i % 2 == 1
-        pool = 16 + (NIDQ["xa"] if use_nidq else 0)
+        lay = LAYOUTS[(i // 2) % 4]
+        xa = lay["xa"]
+        pool = 16 + (xa if use_nidq else 0)
         lines = sorted(int(v) + 1 for v in rng.permutation(pool)[:nl])
         if use_nidq and not any(l > 16 for l in lines):
-            lines[-1] = 17 + int(rng.integers(0, NIDQ["xa"]))
+            lines[-1] = 17 + int(rng.integers(0, xa))
             lines = sorted(set(lines))
         nev = int(rng.integers(1, 60))
         lev = np.zeros((ns, pool), dtype=np.int64)
@@ -556,19 +961,24 @@ def long_train_records(ctx, folder, rng):
             tog[np.unique(tt)] = 1
             lev[:, l] = (int(rng.integers(0, 2)) + np.cumsum(tog)) % 2
         words = (lev[:, :16] * (1 << np.arange(16))).sum(axis=1).astype(np.uint16)
+        how = "read_sync" if i % 3 else "read"
         if use_nidq:
             alev = lev[:, 16:]
             # every analog line must rest at its floor for > 10 % of the samples read
             pre = need_prefix(ns)
             d, floors = analog_from_levels(alev, "1.2", rng, pre)
             wfull = np.r_[np.zeros(pre, dtype=np.uint16), words]
-            f = make_nidq(folder, f"long{i}", wfull, d + floors[None, :], rng)
-            aux = np.r_[np.zeros((pre, NIDQ["xa"]), dtype=np.int64), alev]
-            out.append(ttl_record_from_file(f, wfull, aux, lines))
+            f = make_nidq(folder, f"long{i}", wfull, d + floors[None, :], rng, lay=lay, cbin=600 if (i // 2) % 4 == 3 else 0)
+            aux = np.r_[np.zeros((pre, xa), dtype=np.int64), alev]
+            out.append(ttl_record_from_file(f, wfull, aux, lines, how=how))
         else:
-            f = make_imec(folder, f"long{i}", words, rng)
-            out.append(ttl_record_from_file(f, words, [[] for _ in range(ns)], lines))
-        f.unlink()
+            f = make_imec(folder, f"long{i}", words, rng, **IMEC_FORMS[(i // 2) % 4])
+            # some recordings are read from a later sample on: the events are those inside what was read
+            sl = slice(137, ns - 5) if (i // 2) % 3 == 1 else None
+            ws = words if sl is None else words[sl]
+            out.append(ttl_record_from_file(f, ws, [[] for _ in range(len(ws))], lines, sl=sl, how=how))
+        for g in f.parent.glob(f.name.split(".")[0] + ".*"):
+            g.unlink()
     return out
 
 
@@ -699,7 +1109,7 @@ def replay(ctx, sc):
     logging.getLogger("ibllib").setLevel(logging.ERROR)
     kind = sc.get("kind")
     if kind == "word":
-        recs = word_records([sc["w"]])
+        recs = word_records([sc["w"] if sc["w"] < 32768 else sc["w"] - 65536], sc.get("form", "int16"))
         verd = tracecheck.validate(ctx, "trace/SyncBitsTrace.tla", "trace/SyncBitsTrace.cfg", recs, label="replay", jvms=1,
                                    nstates=lambda t: 3)
         for v in verd:
@@ -708,7 +1118,7 @@ def replay(ctx, sc):
         for lab, cl in direct_calls(sc["x"], sc["ev"], sc["idx"]):
             ctx.violation(f"ttl:{cl}", f"replay train {sc['x']} ({lab}): clause {cl}", sc)
     elif kind == "train":
-        bt = Batch([{"x": sc["x"], "ev": sc["ev"]}], sc["seed"], sc["thr"])
+        bt = Batch([{"x": sc["x"], "ev": sc["ev"]}], sc["seed"], sc["thr"], cfg=sc.get("cfg", 0))
         bt.build(ctx.scratch / "rec", "replay")
         for k, cl, c, s in bt.run(ctx, "replay"):
             ctx.violation(f"ttl:{cl}", f"replay train {sc['x']} on a real {k} recording: clause {cl}", sc)
@@ -719,10 +1129,12 @@ def replay(ctx, sc):
             words = np.asarray(t["words"], dtype=np.uint16)
             if t["aux"] and t["aux"][0]:
                 aux = np.asarray(t["aux"])
-                pre = 0
+                xa = aux.shape[1]
                 d = np.where(aux == 1, 12000, 0)
                 # keep the floor prefix that the original recording had (aux rows of the prefix are zero)
-                f = make_nidq(ctx.scratch / "rec", "replay", words, d + np.array([100, -300])[None, :aux.shape[1]], rng)
+                lay = next((y for y in LAYOUTS if y["xa"] == xa), dict(mn=0, ma=0, xa=xa, dw=1))
+                f = make_nidq(ctx.scratch / "rec", "replay", words,
+                              d + np.array([100, -300, 50, 7, -1000, 2000, 0, -40])[None, :xa], rng, lay=lay)
                 recs = [ttl_record_from_file(f, words, aux, t["lines"])]
             else:
                 f = make_imec(ctx.scratch / "rec", "replay", words, rng)
